@@ -43,7 +43,14 @@ fn show(m: &LinearModel) -> String {
 
 /// oracle sampling effort (points per direction); raised in the thorough tier
 pub static EFFORT: std::sync::atomic::AtomicUsize = std::sync::atomic::AtomicUsize::new(100);
-pub fn one(m: &LinearModel, tol: f64, mut tags: Vec<String>) -> Case { one_effort(m, tol, EFFORT.load(std::sync::atomic::Ordering::Relaxed), &mut tags) }
+pub fn one(m: &LinearModel, tol: f64, mut tags: Vec<String>) -> Case {
+    // the oracle's cost grows with (points) x (rows x columns of the standard form): spend the budget on the small
+    // models, where the grid is dense, and sample the large ones thinly (they are what the bit-exact diff is for)
+    let base = EFFORT.load(std::sync::atomic::Ordering::Relaxed);
+    let size = m.variables().len().max(m.constraints().len());
+    let effort = if size >= 5 { base / 8 } else if size >= 4 { base / 5 } else { base };
+    one_effort(m, tol, effort.max(30), &mut tags)
+}
 pub fn one_effort(m: &LinearModel, tol: f64, effort: usize, tags: &mut Vec<String>) -> Case {
     let mut tags = std::mem::take(tags);
     let lin = sx::lin_model(m);
@@ -176,7 +183,7 @@ pub fn generate(seed: u64, n: usize, thorough: bool, _corpus: Option<&str>) -> V
     let mut r = Rng::new(seed).fork(); // fork: `Rng::new(s+1)` is `Rng::new(s)` shifted by one draw, the fork decorrelates seeds
     let tol = gen_std::measured_tolerance();
     let mut cases = vec![];
-    EFFORT.store(if thorough { 400 } else { 100 }, std::sync::atomic::Ordering::Relaxed);
+    EFFORT.store(if thorough { 300 } else { 100 }, std::sync::atomic::Ordering::Relaxed);
     // --- the documented example and the classic shapes first
     {
         let mut m = LinearModel::new();
